@@ -15,7 +15,7 @@ Definition event_eqb (a b : event) : bool :=
 Definition obs_eqb (a b : obs) : bool :=
   match a, b with
   | ONone, ONone => true
-  | OArray s x, OArray t y => list_eqb Z.eqb s t && list_eqb oz_eqb x y
+  | OArray s d x, OArray t e y => list_eqb Z.eqb s t && dt_eqb d e && list_eqb oz_eqb x y
   | OBool x, OBool y => Bool.eqb x y
   | OErr e, OErr f => errk_eqb e f
   | _, _ => false
@@ -24,28 +24,56 @@ Definition obs_eqb (a b : obs) : bool :=
 Definition step_eqb (a b : obs * trace) : bool :=
   obs_eqb (fst a) (fst b) && list_eqb event_eqb (snd a) (snd b).
 
-(* the file system of a case: (file, variable, shape, flat values) *)
-Definition mk_disk (vars : list (Z * Z * list nat * list (option Z))) : disk :=
-  lookup2 (map (fun x => let '(f, v, sh, fl) := x in (f, v, reshape sh fl)) vars).
+(* a variable: type code (Model.dt_code), packing attributes, and what is stored *)
+Definition mk_pack (p : bool * option (Z * Z) * option (Z * Z)) : pack :=
+  let '(u, sf, ao) := p in
+  {| p_unsigned := u;
+     p_scale := match sf with Some (c, z) => Some (dt_of_code c, z) | None => None end;
+     p_offset := match ao with Some (c, z) => Some (dt_of_code c, z) | None => None end |}.
 
-Definition pick (h5 old : bool) : cfg :=
+Definition packspec := (bool * option (Z * Z) * option (Z * Z))%type.
+
+(* the file system of a case: (file, variable, shape, type, packing, flat stored values) *)
+Definition mk_disk (vars : list (Z * Z * list nat * Z * packspec * list (option Z))) : disk :=
+  lookup2 (map (fun x => let '(f, v, sh, ty, p, fl) := x in
+                         (f, v, {| s_dt := dt_of_code ty; s_pack := mk_pack p; s_raw := reshape sh fl |})) vars).
+
+(* 0: the current code; 1: before C12-fix-1; 2: before C12-fix2-1 *)
+Definition pick (h5 : bool) (old : Z) : cfg :=
   match h5, old with
-  | false, false => cfg_nc4
-  | true, false => cfg_h5
-  | false, true => cfg_nc4_old
-  | true, true => cfg_h5_old
+  | false, 1 => cfg_nc4_old
+  | true, 1 => cfg_h5_old
+  | false, 2 => cfg_nc4_old2
+  | true, 2 => cfg_h5_old2
+  | false, _ => cfg_nc4
+  | true, _ => cfg_h5
   end.
 
-(* a history: the variables on disk, the Data objects the history starts from,
-   the backend (true = h5netcdf), the operations, and what the implementation
-   showed for each operation (result, open/fetch/close events). *)
-Definition check_ops_cfg (old : bool)
-  (c : list (Z * Z * list nat * list (option Z)) * list cell * bool * list op * list (obs * trace)) : bool :=
+(* the data type each file-backed starting object declares (Data.dtype straight
+   after read) is the one the model's reader gives a data variable *)
+Definition declared_ok (C : cfg) (dk : disk) (h : list cell) : bool :=
+  forallb (fun c => match c with
+                    | OnDisk f v _ d =>
+                      match dk f v with
+                      | Some st => dt_eqb d (c_declare C true (s_dt st) (s_pack st))
+                      | None => true
+                      end
+                    | InMem _ _ _ => true
+                    end) h.
+
+(* a history: the variables on disk, the Data objects the history starts from
+   (with the data types they declare), the backend (true = h5netcdf), the
+   operations, and what the implementation showed for each operation (result,
+   open/fetch/close events). *)
+Definition check_ops_cfg (old : Z)
+  (c : list (Z * Z * list nat * Z * packspec * list (option Z)) * list cell * bool * list op * list (obs * trace)) : bool :=
   let '(vars, h, h5, ops, observed) := c in
+  declared_ok (pick h5 old) (mk_disk vars) h &&
   list_eqb step_eqb (run (pick h5 old) (mk_disk vars) h ops) observed.
 
-Definition check_ops := check_ops_cfg false.
-Definition check_ops_old := check_ops_cfg true.
+Definition check_ops := check_ops_cfg 0.
+Definition check_ops_old := check_ops_cfg 1.
+Definition check_ops_old2 := check_ops_cfg 2.
 
 (* sorted list of distinct variable numbers *)
 Fixpoint insert_z (x : Z) (l : list Z) : list Z :=
@@ -56,27 +84,38 @@ Fixpoint insert_z (x : Z) (l : list Z) : list Z :=
 Definition sort_z (l : list Z) : list Z := fold_right insert_z [] l.
 
 Definition in_memory_vars (ds : list vdesc) (cs : list cell) : list Z :=
-  flat_map (fun dc => match snd dc with InMem _ _ => [vd_var (fst dc)] | _ => [] end) (combine ds cs).
+  flat_map (fun dc => match snd dc with InMem _ _ _ => [vd_var (fst dc)] | _ => [] end) (combine ds cs).
 
-(* a read: the variables (number, shape, role), the backend, and what the
-   implementation showed: the set of variables whose values were fetched while
-   reading, and the set whose Data is in memory afterwards. *)
-Definition check_read
-  (c : list (Z * list Z * role) * bool * list Z * list Z) : bool :=
-  let '(vars, h5, fetched, inmem) := c in
-  let ds := map (fun x => let '(v, sh, r) := x in {| vd_var := v; vd_shape := sh; vd_role := r |}) vars in
+(* (variable, code of the data type its Data object has after read) *)
+Definition dtypes_after_read (ds : list vdesc) (cs : list cell) : list (Z * Z) :=
+  map (fun dc => (vd_var (fst dc), dt_code (cdtype (snd dc)))) (combine ds cs).
+
+(* a read: the variables (number, shape, role, type, packing), the backend, and
+   what the implementation showed: the set of variables whose values were
+   fetched while reading, the set whose Data is in memory afterwards, and
+   Data.dtype straight after read for every variable that has a Data object. *)
+Definition check_read_cfg (old : Z)
+  (c : list (Z * list Z * role * Z * packspec) * bool * list Z * list Z * list (Z * Z)) : bool :=
+  let '(vars, h5, fetched, inmem, dtypes) := c in
+  let ds := map (fun x => let '(v, sh, r, _, _) := x in {| vd_var := v; vd_shape := sh; vd_role := r |}) vars in
   let dk : disk := fun _ v =>
-     match find (fun d => vd_var d =? v) ds with
-     | Some d => Some (reshape (map Z.to_nat (vd_shape d))
-                               (repeat (Some 0) (fold_right Nat.mul 1%nat (map Z.to_nat (vd_shape d)))))
+     match find (fun x => let '(v', _, _, _, _) := x in v' =? v) vars with
+     | Some (_, sh, _, ty, p) =>
+       Some {| s_dt := dt_of_code ty; s_pack := mk_pack p;
+               s_raw := reshape (map Z.to_nat sh)
+                                (repeat (Some 0) (fold_right Nat.mul 1%nat (map Z.to_nat sh))) |}
      | None => None
      end in
-  let (cs, t) := read (pick h5 false) dk 0 ds in
+  let (cs, t) := read (pick h5 old) dk 0 ds in
   list_eqb Z.eqb (sort_z (fetched_vars t)) fetched &&
   list_eqb Z.eqb (sort_z (in_memory_vars ds cs)) inmem &&
+  forallb (fun o => existsb (fun m => (fst o =? fst m) && (snd o =? snd m)) (dtypes_after_read ds cs)) dtypes &&
   match scan [] t with Some [] => true | _ => false end.
+
+Definition check_read := check_read_cfg 0.
+Definition check_read_old2 := check_read_cfg 2.
 
 (* the types of the literals, so that a shard whose lists all happen to be empty still type-checks *)
 Definition ops_case :=
-  (list (Z * Z * list nat * list (option Z)) * list cell * bool * list op * list (obs * trace))%type.
-Definition read_case := (list (Z * list Z * role) * bool * list Z * list Z)%type.
+  (list (Z * Z * list nat * Z * packspec * list (option Z)) * list cell * bool * list op * list (obs * trace))%type.
+Definition read_case := (list (Z * list Z * role * Z * packspec) * bool * list Z * list Z * list (Z * Z))%type.
